@@ -1,5 +1,4 @@
-import Driver.SimParse
-import Q1t.Spec.Born
+import Driver.SimStep
 /-!
 Driver for C01 (shot histograms are exact Born-rule samples).
 * `born | <nq> | <ops>` → the exact single-shot distribution over register words from the reference
@@ -10,9 +9,8 @@ Driver for C01 (shot histograms are exact Born-rule samples).
 * `hist | …` lines (implementation histograms) are answered `ok` (they are judged statistically by
   tools/props/c01.py against `born`).
 -/
-open Q1t Q1t.Sim Q1t.Proto Q1t.GateParse Q1t.SimParse Q1t.CFloat
+open Q1t Q1t.Sim Q1t.Proto Q1t.GateParse Q1t.SimParse Q1t.CFloat Q1t.SimStep
 
-def vnormSq (v : List CFloat) : Float := v.foldl (fun a c => a + CFloat.normSq c) 0.0
 def nonzeroF (v : List CFloat) : Bool := vnormSq v > 1e-24
 
 /-- single-shot Born semantics over floats, peeks included (branch weight carried separately) -/
@@ -73,7 +71,7 @@ partial def dist {β} : Prog CFloat β → List (Except Fail β × Float)
       (multisets (ws.map (·.re)) c).flatMap fun (l, pr) =>
         if pr ≤ 0.0 then [] else (dist (k l)).map fun (r, q) => (r, q * pr)
 
-def handle (line : String) : String :=
+def handle1 (line : String) : String :=
   let fs := fields line
   match fs with
   | [["born"], [nq], opsF] =>
@@ -82,14 +80,18 @@ def handle (line : String) : String :=
       let d := bornDist n ops
       s!"ok {d.length}" ++ String.join (d.map fun (w, p) => s!" {w} {floatToHex p}")
     | _, _ => "bad-op"
-  | [["modeldist"], [_repr], [nq], [nshots], opsF] =>
+  | [["modeldist"], [repr], [nq], [nshots], opsF] =>
     match nq.toNat?, nshots.toNat?, (splitBars' opsF).mapM parseOp with
     | some n, some N, some ops =>
-      let s0 : VecState CFloat := VecState.new n N
-      let prog := execOps (vecBackend (α := CFloat) (P := Float)) s0 (List.replicate N 0) ops
-      let outcomes := (dist prog).map fun (r, p) =>
+      let regs : List (Except Fail (List Nat) × Float) :=
+        if repr = "s" then
+          (dist (execOps stabB (StabState.new n N) (List.replicate N 0) ops)).map fun (r, p) => (r.map (·.2), p)
+        else
+          (dist (execOps (vecBackend (α := CFloat) (P := Float)) (VecState.new n N) (List.replicate N 0) ops)).map
+            fun (r, p) => (r.map (·.2), p)
+      let outcomes := regs.map fun (r, p) =>
         match r with
-        | .ok (_, reg) => (joinNats (reg.toArray.qsort (· < ·)).toList |>.replace " " ",", p)
+        | .ok reg => (joinNats (reg.toArray.qsort (· < ·)).toList |>.replace " " ",", p)
         | .error (.err e) => (showSimErr e |>.replace " " "_", p)
         | .error (.panic _) => ("panic", p)
       let keys := (outcomes.map (·.1)).eraseDups
@@ -106,4 +108,4 @@ where
       | w :: rest => if w = ";" then go [] (acc.reverse :: out) rest else go (w :: acc) out rest
     (go [] [] ws).filter (· ≠ [])
 
-def main (_args : List String) : IO Unit := serve handle
+def main (_args : List String) : IO Unit := serve handle1
